@@ -617,7 +617,9 @@ void World::doDecl(const Step &st, StepRecord &rec, bool analog) {
     } catch (...) { rec.threw = true; rec.exc = classify_current_exception(&lastWhat); }
     cur = take_snapshot(*obj);
     // C06: declaring a name on a data set that already has frames adds exactly one column
-    if (!rec.threw && on(ORC_C06) && !before.frames.empty()) {
+    bool uniform = !premise_broken; // a data set that already holds frames outside the declared shape has no defined column extension
+    for (auto &f0 : before.frames) if (!f0.empty() && analog && f0.subs.size() != before.h.nbAnalogByFrame) uniform = false;
+    if (!rec.threw && on(ORC_C06) && !before.frames.empty() && uniform) {
         bool ok = cur.frames.size() == before.frames.size();
         std::string d;
         for (size_t f = 0; ok && f < cur.frames.size(); ++f) {
